@@ -85,8 +85,9 @@ class Uni:
     trial space (usub None: no trial function); udeg: polynomial degree of the trial space
     (2: a different space than the test space even for equal shapes)."""
 
-    def __init__(self, name, mixed, vsub, usub, coefs, ops, maxnodes, formops, keypairs=(), lits=(("two", 2),), udeg=1, complex_env=True, simulate=None, depth=None, exclude=(), nenv=2):
+    def __init__(self, name, mixed, vsub, usub, coefs, ops, maxnodes, formops, keypairs=(), lits=(("two", 2),), udeg=1, complex_env=True, simulate=None, depth=None, exclude=(), nenv=2, pre=()):
         self.name = name
+        self.pre = [(op, tuple(a), tuple(mi)) for op, a, mi in pre]  # extra initial nodes: (op, operand names, mi)
         self.mixed = mixed
         self.vsub = [tuple(s) for s in vsub]
         self.usub = None if usub is None else [tuple(s) for s in usub]
@@ -109,13 +110,13 @@ class Uni:
             name=self.name, mixed=self.mixed, vsub=[list(s) for s in self.vsub], usub=None if self.usub is None else [list(s) for s in self.usub],
             coefs=[[n, list(s)] for n, s in self.coefs], ops=sorted(self.ops), maxnodes=self.maxnodes, formops=sorted(self.formops),
             keypairs=[list(k) for k in self.keypairs], lits=[[n, v] for n, v in self.lits], udeg=self.udeg, complex_env=self.complex_env,
-            exclude=sorted(self.exclude), nenv=self.nenv,
+            exclude=sorted(self.exclude), nenv=self.nenv, pre=[[op, list(a), list(mi)] for op, a, mi in self.pre],
         )
 
     @staticmethod
     def from_json(d):
         return Uni(d["name"], d["mixed"], d["vsub"], d["usub"], d["coefs"], d["ops"], d["maxnodes"], d["formops"], d["keypairs"],
-                   [tuple(x) for x in d["lits"]], d["udeg"], d["complex_env"], exclude=d.get("exclude", ()), nenv=d.get("nenv", 2))
+                   [tuple(x) for x in d["lits"]], d["udeg"], d["complex_env"], exclude=d.get("exclude", ()), nenv=d.get("nenv", 2), pre=d.get("pre", ()))
 
     # ---- derived layout --------------------------------------------------------------------
     @staticmethod
@@ -165,6 +166,7 @@ class Uni:
         nid = na + nc + nl
         self.pieces = {}  # (num, sub) -> node id
         self.helper = {}  # node id -> (argument name, flat component)
+        pnames = {}  # names of the pieces: "v_0", "v_1", ...; of their components: "v[1]", ...
         if mixed == "element":
             for nm, num, subs in sides:
                 off = 0
@@ -176,6 +178,7 @@ class Uni:
                         nid += 1
                         self.pieces[(num, s)] = nid
                         self.helper[nid] = (nm, off)
+                        pnames[f"{nm}_{s}"] = nid
                     else:
                         ids = []
                         for k in range(n):
@@ -183,10 +186,22 @@ class Uni:
                             nid += 1
                             ids.append(nid)
                             self.helper[nid] = (nm, off + k)
+                            pnames[f"{nm}[{off + k}]"] = nid
                         prelude.append(("list", tuple(ids), ()))
                         nid += 1
                         self.pieces[(num, s)] = nid
+                        pnames[f"{nm}_{s}"] = nid
                     off += n
+        # extra initial nodes ("p1", "p2", ... name them)
+        names = dict(self.arg_id)
+        names.update(self.coef_id)
+        names.update(self.lit_id)
+        names.update(pnames)
+        for k, (op, anames, mi) in enumerate(self.pre):
+            prelude.append((op, tuple(names[a] for a in anames), mi))
+            nid += 1
+            names[f"p{k + 1}"] = nid
+        self.node_id = names
         self.prelude = prelude
         self.ninit = nid
         # slots
@@ -204,7 +219,7 @@ class Uni:
         self.nv, self.nu = len(self.vslot), len(self.uslot)
         self.kv = len(self.vsub)
         self.ku = len(self.usub) if self.usub is not None else 1
-        excl = {self.arg_id.get(n) or self.coef_id.get(n) or self.lit_id.get(n) for n in self.exclude}
+        excl = {self.node_id[n] for n in self.exclude if n in self.node_id}
         # the substituted coefficients are ordinary coefficients of the forms as well
         self.usable = [i for i in range(1, self.ninit + 1) if i not in excl]
 
@@ -262,6 +277,7 @@ c_USlot == {slots(uni.uslot)}
 c_VPartOf == {_seq(uni.vpart)}
 c_UPartOf == {_seq(uni.upart)}
 c_ActCoef == {_seq([a or 0 for a in uni.actcoef])}
+c_Programs == {'LET s == JsonDeserialize("programs.json") IN {s[i] : i \\in DOMAIN s}' if programs else "{}"}
 ====
 """
 
@@ -292,6 +308,7 @@ def mc_cfg(uni, ascoded, invariants=PROPERTY_INVS, dump=True):
         "ActCoef <- c_ActCoef",
         f"SameSpace = {'TRUE' if uni.same_space else 'FALSE'}",
         f"AsCoded = {'TRUE' if ascoded else 'FALSE'}",
+        "Programs <- c_Programs",
         "SPECIFICATION Spec",
     ]
     lines += [f"INVARIANT {i}" for i in invariants]
@@ -301,14 +318,148 @@ def mc_cfg(uni, ascoded, invariants=PROPERTY_INVS, dump=True):
 
 
 def run_tlc(uni, seed, ascoded=False, invariants=PROPERTY_INVS, dump=True, timeout=900, workers=TLC_WORKERS):
+    """One TLC run on a universe: exhaustive, or -- when uni.simulate = N -- on N sampled programs
+    (drawn here, seeded; TLC checks every step against the constructors' guards)."""
     coefval = uni.coef_values(seed)
     name = "MC_" + uni.name.replace("-", "_")
-    kw = {}
-    if uni.simulate:
-        kw = dict(simulate=f"num={uni.simulate}", depth=uni.depth or (uni.maxnodes + 3), seed=seed + 1)
-    res = tlc.run(name, mc_cfg(uni, ascoded, invariants, dump), mc_text=mc_module(name, uni, coefval, ascoded), mc_name=name,
-                  workers=workers, timeout=timeout, env={"JAVA_TOOL_OPTIONS": JAVA_OPTS}, **kw)
+    programs = sample_programs(uni, seed, uni.simulate) if uni.simulate else None
+    res = tlc.run(name, mc_cfg(uni, ascoded, invariants, dump), mc_text=mc_module(name, uni, coefval, ascoded, programs), mc_name=name,
+                  workers=workers, timeout=timeout, env={"JAVA_TOOL_OPTIONS": JAVA_OPTS},
+                  extra_files={"programs.json": json.dumps(programs)} if programs else None)
+    if programs:
+        res.mode = "sampled"
     return coefval, res
+
+
+UNARY = ("neg", "abs", "conj", "real", "imag", "var")
+BINARY = ("add", "sub", "mul", "div", "pow", "inner", "dot", "outer", "list")
+
+
+def sample_programs(uni, seed, n):
+    """n random programs [prog, ints] over the universe's alphabet with depth <= uni.depth nodes,
+    every built node an ancestor of a root.  Shapes are tracked so that most programs are legal;
+    TLC's guards decide."""
+    rng = random.Random(seed * 104729 + hash_name(uni.name) + 7)
+    shapes0 = [sh for _, _, _, sh in uni.args] + [sh for _, sh in uni.allcoefs] + [() for _ in uni.lits]
+    kinds0 = ["arg"] * len(uni.args) + ["coef"] * len(uni.allcoefs) + ["lit"] * len(uni.lits)
+    for op, args, mi in uni.prelude:
+        xs = [shapes0[i - 1] for i in args]
+        shapes0.append(_op_shape(op, xs))
+        kinds0.append(op)
+    ops = sorted(uni.ops)
+    maxd = uni.depth or uni.maxnodes
+    out = []
+    seen = set()
+    tries = 0
+    while len(out) < n and tries < 60 * n:
+        tries += 1
+        shapes, kinds = list(shapes0), list(kinds0)
+        prog = []
+        unused = []
+        depth = rng.randint(2, maxd)
+        for step in range(depth):
+            avail = uni.usable + list(range(uni.ninit + 1, len(shapes) + 1))
+            for _ in range(8):
+                op = rng.choice(ops)
+
+                def pick():
+                    # prefer nodes nothing uses yet, so that the program stays connected
+                    if unused and rng.random() < 0.65:
+                        return rng.choice(unused)
+                    return rng.choice(avail)
+
+                if op in UNARY:
+                    a = [pick()]
+                    mi = []
+                elif op == "index":
+                    a = [pick()]
+                    sh = shapes[a[0] - 1]
+                    if not sh or kinds[a[0] - 1] not in ("arg", "coef", "outer"):
+                        continue
+                    mi = [rng.randrange(d) for d in sh]
+                else:
+                    a = [pick(), pick()]
+                    mi = []
+                sh = _op_shape(op, [shapes[i - 1] for i in a])
+                if sh is None:
+                    continue
+                if op == "pow" and not (kinds[a[1] - 1] == "lit"):
+                    continue
+                if op in ("abs", "conj", "real", "imag", "neg", "var") and kinds[a[0] - 1] == "lit":
+                    continue
+                if op == "list" and any(kinds[i - 1] == "lit" for i in a):
+                    continue
+                if op in ("add", "sub", "mul", "div") and all(kinds[i - 1] == "lit" for i in a):
+                    continue
+                prog.append({"op": op, "args": a, "mi": mi})
+                shapes.append(sh)
+                kinds.append(op)
+                nid = len(shapes)
+                unused = [u for u in unused if u not in a] + [nid]
+                break
+        if not prog or shapes[-1] != ():
+            continue
+        last = len(shapes)
+        roots = [last]
+        if uni.keypairs and rng.random() < 0.35:
+            cands = [u for u in unused if u != last and shapes[u - 1] == ()]
+            if cands:
+                roots = [rng.choice(cands), last]
+        # drop nodes that no root uses, renumber
+        live = set()
+        stack = list(roots)
+        while stack:
+            i = stack.pop()
+            if i in live or i <= uni.ninit:
+                continue
+            live.add(i)
+            stack.extend(prog[i - uni.ninit - 1]["args"])
+        ren = {}
+        newprog = []
+        for i in range(uni.ninit + 1, last + 1):
+            if i in live:
+                ren[i] = uni.ninit + len(newprog) + 1
+                nd = prog[i - uni.ninit - 1]
+                newprog.append({"op": nd["op"], "args": [ren.get(x, x) for x in nd["args"]], "mi": nd["mi"]})
+        if len(roots) == 2:
+            kp = rng.choice(uni.keypairs)
+            ints = [{"key": kp[0], "root": ren[roots[0]]}, {"key": kp[1], "root": ren[roots[1]]}]
+        else:
+            ints = [{"key": 1, "root": ren[last]}]
+        key = json.dumps([newprog, ints])
+        if key in seen or len(newprog) < 2:
+            continue
+        seen.add(key)
+        out.append({"prog": newprog, "ints": ints})
+    return out
+
+
+def _op_shape(op, xs):
+    """result shape of a constructor or None when the shapes do not fit (mirror of OpSh / OkNode)"""
+    x, y = xs[0], xs[-1]
+    if op in ("add", "sub"):
+        return x if x == y else None
+    if op in ("neg", "conj", "real", "imag", "var"):
+        return x
+    if op == "abs":
+        return x if x == () else None
+    if op == "mul":
+        return (y if x == () else x) if (x == () or y == ()) and len(x) < 2 and len(y) < 2 else None
+    if op == "div":
+        return x if y == () and len(x) < 2 else None
+    if op == "pow":
+        return () if x == () and y == () else None
+    if op == "inner":
+        return () if x == y and len(x) >= 1 else None
+    if op == "dot":
+        return () if x == y and len(x) == 1 else None
+    if op == "outer":
+        return x + y if len(x) == 1 and len(y) == 1 else None
+    if op == "index":
+        return ()
+    if op == "list":
+        return (len(xs),) if all(s == () for s in xs) else None
+    return None
 
 
 # --------------------------------------------------------------------------------------------
@@ -374,8 +525,7 @@ class World:
         self.litobj = [ufl.as_ufl(v) for _, v in uni.lits]
         self.init = list(self.argobj) + self.coefobj + self.litobj
         for op, args, mi in uni.prelude:
-            ops = [self.init[i - 1] for i in args]
-            self.init.append(ops[0][mi[0]] if op == "index" else ufl.as_vector(ops))
+            self.init.append(self.apply(op, [self.init[i - 1] for i in args], mi))
         for (num, s), nid in uni.pieces.items():
             if self.init[nid - 1] != self.pieces[(num, s)]:
                 raise MachineryError(f"world: ufl.split piece {(num, s)} is not the modelled expression: {self.pieces[(num, s)]!r}")
@@ -449,9 +599,8 @@ class World:
 
     def text(self, rec):
         names = [a[0] for a in self.uni.args] + [c[0] for c in self.uni.allcoefs] + [l[0] for l in self.uni.lits]
-        for op, args, mi in self.uni.prelude:
-            names.append(f"{names[args[0] - 1]}[{mi[0]}]" if op == "index" else "[" + ",".join(names[i - 1] for i in args) + "]")
-        for n in rec["prog"]:
+        pre = [{"op": op, "args": list(args), "mi": list(mi)} for op, args, mi in self.uni.prelude]
+        for n in pre + list(rec["prog"]):
             a = [names[i - 1] for i in n["args"]]
             op = n["op"]
             sym = {"add": "+", "sub": "-", "mul": "*", "div": "/", "pow": "**"}
@@ -840,7 +989,7 @@ def check_record(w, rec, corrupt=False):
         cnt("evaluations", sum(len(g) * len(g[0]) for t in tab.values() for g in t))
         if prej:
             findings.append(Finding("conformance", f"{PID}:conformance:{fop}:model-refuses",
-                                    f"{label}({w.text(rec)}) returned a form; the as-coded model raises"))
+                                    f"{label}({w.text(rec)}) returned a form; the as-coded model raises", {"label": label}))
         else:
             ptabs = [pred_tab(t) for t in rec["out"][o]]
             if corrupt == "output" and idx == 0:
@@ -849,7 +998,7 @@ def check_record(w, rec, corrupt=False):
             d = keyed_diff(tab, want, nenv, onr, onc)
             if d is not None:
                 findings.append(Finding("conformance", f"{PID}:conformance:{fop}:table",
-                                        f"{label}({w.text(rec)}): real result differs from the as-coded model at {d}"))
+                                        f"{label}({w.text(rec)}): real result differs from the as-coded model at {d}", {"label": label}))
     # ---- the identities of the property, from the real input table only ------------------------
     if valid:
         for idx, (label, o, (status, val)) in enumerate(outs):
@@ -897,6 +1046,9 @@ def check_record(w, rec, corrupt=False):
                 pass
             except ForeignArgument:
                 pass
+    # a result that violates the property also differs from the (intended) model: one verdict
+    viol = {f.extra.get("label") for f in findings if f.kind == "violation"}
+    findings = [f for f in findings if not (f.kind == "conformance" and f.extra.get("label") in viol)]
     return findings, st
 
 
@@ -971,30 +1123,40 @@ def coefval_from_json(j):
     return [[{tuple(c): Cx(fr(v[0]), fr(v[1])) for c, v in tab} for tab in env] for env in j]
 
 
+_POOL = None
+
+
+def get_pool():
+    """persistent replay workers, started from a clean fork server (the parent holds TLC's output)"""
+    global _POOL
+    if _POOL is None:
+        import atexit
+        import multiprocessing
+
+        _POOL = multiprocessing.get_context("forkserver").Pool(PY_PROCS)
+        atexit.register(_POOL.terminate)
+    return _POOL
+
+
 def replay_records(ctx, mod, uni, coefval, recs, corrupt=False, procs=None):
     """Replay records (grouped by form so that a form's input table is assembled once) in child
     processes; returns (list of (rec, findings), stats)."""
-    import multiprocessing
-
     procs = procs or PY_PROCS
     groups = {}
     for r in recs:
         groups.setdefault((repr(r["prog"]), repr(r["ints"])), []).append(r)
     ordered = [r for g in groups.values() for r in g]
-    nchunk = max(1, min(len(ordered) // 40 + 1, procs * 6))
+    inproc = procs == 1 or len(ordered) < 400
+    nchunk = 1 if inproc else max(1, min(len(ordered) // 150 + 1, procs * 4))
     size = (len(ordered) + nchunk - 1) // nchunk
-    # chunk boundaries at group boundaries are not required for correctness
     chunks = [ordered[i : i + size] for i in range(0, len(ordered), size)]
     jobs = [(mod, uni.to_json(), coefval_to_json(coefval), ch, corrupt) for ch in chunks]
     results = []
     stats = {}
-    import ufl  # noqa: F401 - imported before forking
-
-    if procs == 1 or len(ordered) < 2500:
+    if inproc:
         outs = [_worker(j) for j in jobs]
     else:
-        with multiprocessing.get_context("fork").Pool(min(procs, len(jobs))) as pool:
-            outs = pool.map(_worker, jobs)
+        outs = get_pool().map(_worker, jobs, chunksize=1)
     for ch, (out, st) in zip(chunks, outs):
         for r, fs in zip(ch, out):
             results.append((r, [Finding(*f) for f in fs]))
@@ -1028,33 +1190,56 @@ def universes(tier):
     f, g, W2 = ("f", ()), ("g", ()), ("W", (2,))
     ALLOPS = ("lhs", "rhs", "system", "functional", "action", "adjoint", "energy_norm")
     MAIN = ("system", "functional", "action", "adjoint", "energy_norm")
+    SYS = ("system", "functional", "action")
     out = [
         # scalar spaces: sums, products, quotients of coefficient and argument factors
-        Uni("scalar", "none", [()], [()], [f, g], {"add", "sub", "mul", "div"}, 3, MAIN if q else ALLOPS, exclude=("two", "w_u")),
+        Uni("scalar", "none", [()], [()], [f, g], {"add", "sub", "mul", "div"}, 2, ALLOPS, exclude=("two", "w_u") + (("g",) if q else ())),
+        Uni("scalar3", "none", [()], [()], [f], {"add", "mul"}, 3, MAIN, exclude=("two", "w_u")),
         # complex mode operators, nonlinear operators (refusals), variables
-        Uni("scalar-ops", "none", [()], [()], [f], {"add", "mul", "neg", "conj", "real", "imag", "abs", "pow", "var"}, 2 if q else 3, MAIN),
+        Uni("scalar-ops", "none", [()], [()], [f], {"mul", "neg", "conj", "real", "imag", "abs", "pow", "var"}, 2, MAIN, exclude=("w_u",)),
         # two integrals: dx + ds, dx(1) + dx(2), dx + dx
-        Uni("scalar-2int", "none", [()], [()], [f], {"add", "sub", "mul"}, 2, ALLOPS, keypairs=[(1, 2), (3, 4), (1, 1)], exclude=("two", "w_u")),
-        # vector spaces: inner / dot / outer, components, list tensors
-        Uni("vector", "none", [(2,)], [(2,)], [f, W2], {"add", "mul", "inner", "dot", "index"}, 2 if q else 3, MAIN, exclude=("two",)),
-        Uni("vector-list", "none", [()], [()], [f, W2], {"add", "mul", "list", "inner", "dot"}, 3, ("system", "functional", "action"), exclude=("two", "w_u", "g")),
+        Uni("scalar-2int", "none", [()], [()], [f], {"add", "mul"}, 2, SYS if q else MAIN, keypairs=[(1, 2), (3, 4)] if q else [(1, 2), (3, 4), (1, 1)], exclude=("two", "w_u")),
+        # vector spaces: inner / dot / outer, components
+        Uni("vector", "none", [(2,)], [(2,)], [f, W2], {"add", "mul", "inner", "dot", "index"}, 2, MAIN, exclude=("two", "w_u")),
+        # list tensors whose components have equal / different arity (documented refusal)
+        Uni("vector-list", "none", [()], [()], [f, W2], {"add", "list", "inner", "dot", "mul"}, 2, SYS, exclude=("two", "w_u", "f", "v", "u"),
+            pre=[("mul", ("f", "v"), ()), ("mul", ("u", "v"), ()), ("mul", ("p2", "f"), ())]),
         # rectangular: scalar test space, vector trial space
-        Uni("rect", "none", [()], [(2,)], [f, W2], {"add", "mul", "inner", "dot", "index", "outer"}, 2, MAIN, exclude=("two",)),
+        Uni("rect", "none", [()], [(2,)], [f, W2], {"add", "mul", "inner", "dot", "index", "outer"}, 2, MAIN, exclude=("two", "w_u", "w_v")),
         # MixedElement with split
-        Uni("melem", "element", [(), (2,)], [(), (2,)], [f, W2], {"add", "mul", "inner", "index"}, 2, MAIN, exclude=("two",)),
+        Uni("melem", "element", [(), (2,)], [(), (2,)], [f, W2], {"add", "mul", "inner"}, 2, MAIN, exclude=("two", "w_u", "v", "u", "v[1]", "v[2]", "u[1]", "u[2]")),
         # MixedFunctionSpace: parts
-        Uni("mspace", "space", [(), ()], [(), ()], [f], {"add", "sub", "mul"}, 2 if q else 3, MAIN, exclude=("two", "w_u0", "w_u1")),
+        Uni("mspace", "space", [(), ()], [(), ()], [f], {"add", "mul"} if q else {"add", "sub", "mul"}, 2, MAIN, exclude=("two", "w_u0", "w_u1")),
         Uni("mspace-vec", "space", [(), (2,)], [(), (2,)], [f, W2], {"add", "mul", "inner", "index"}, 2, MAIN, exclude=("two", "w_u0", "w_u1")),
     ]
+    if not q:
+        out += [
+            Uni("scalar3-wide", "none", [()], [()], [f, g], {"add", "sub", "mul", "div"}, 3, ("system", "functional"), exclude=("two", "w_u", "g")),
+            Uni("scalar-ops3", "none", [()], [()], [f], {"add", "mul", "conj", "real", "abs", "var"}, 3, MAIN, exclude=("two", "w_u")),
+            Uni("vector3", "none", [(2,)], [(2,)], [f, W2], {"add", "mul", "inner", "index"}, 3, MAIN, exclude=("two", "w_u", "W")),
+            Uni("melem3", "element", [(), (), ()], [(), (), ()], [f], {"add", "mul"}, 2, MAIN, exclude=("two", "w_u", "v", "u")),
+            Uni("mspace3", "space", [(), ()], [(), ()], [f], {"add", "mul"}, 3, MAIN, exclude=("two", "w_u0", "w_u1")),
+            Uni("mspace-3parts", "space", [(), (), (2,)], [(), (), (2,)], [f], {"add", "mul", "inner", "index"}, 2, MAIN, exclude=("two", "w_u0", "w_u1", "w_u2")),
+            Uni("mspace-rect", "space", [(), (2,)], [(2,), ()], [f, W2], {"add", "mul", "inner", "index"}, 2, MAIN, exclude=("two", "w_u0", "w_u1", "w_v0", "w_v1")),
+            # sampled deeper programs (drawn here with ctx.seed, validated and predicted by TLC)
+            Uni("deep-scalar", "none", [()], [()], [f, g], {"add", "sub", "mul", "div", "neg", "conj", "real", "abs", "var"}, 0, MAIN, keypairs=[(1, 2), (3, 4), (1, 1)], exclude=("w_u",), simulate=5000, depth=6),
+            Uni("deep-vector", "none", [(2,)], [(2,)], [f, W2], {"add", "sub", "mul", "div", "inner", "dot", "outer", "index", "list", "conj"}, 0, MAIN, keypairs=[(1, 2)], exclude=("two",), simulate=4000, depth=6),
+            Uni("deep-melem", "element", [(), (2,)], [(), (2,)], [f, W2], {"add", "sub", "mul", "inner", "dot", "index", "conj"}, 0, MAIN, keypairs=[(1, 2)], exclude=("two",), simulate=3000, depth=5),
+            Uni("deep-mspace", "space", [(), (2,)], [(), (2,)], [f, W2], {"add", "sub", "mul", "inner", "dot", "index", "conj"}, 0, MAIN, keypairs=[(1, 2)], exclude=("two",), simulate=3000, depth=5),
+        ]
     return out
 
 
-def run_universe(ctx, mod, uni, corrupt=False, pid=PID):
-    coefval, res = run_tlc(uni, ctx.seed, ascoded=False)
+def tlc_failure(uni, res):
+    tail = "\n".join(line for line in res.stdout.splitlines() if not line.startswith('"{'))[-3000:]
+    return MachineryError(f"TLC on universe {uni.name}: {res.outcome} {res.violated}\n{tail}")
+
+
+def process_universe(ctx, mod, uni, coefval, res, corrupt=False, pid=PID):
+    """replay all behaviours TLC printed for one universe"""
     ctx.add_tlc(res)
     if res.outcome != "ok":
-        tail = "\n".join(line for line in res.stdout.splitlines() if not line.startswith('"{'))[-3000:]
-        raise MachineryError(f"TLC on universe {uni.name}: {res.outcome} {res.violated}\n{tail}")
+        raise tlc_failure(uni, res)
     t1 = time.time()
     recs = tlc.decode_prints(res)
     if not recs:
@@ -1069,28 +1254,68 @@ def run_universe(ctx, mod, uni, corrupt=False, pid=PID):
             uniq.append(r)
     results, stats = replay_records(ctx, mod, uni, coefval, uniq, corrupt)
     t3 = time.time()
-    print(f"  [{uni.name}] tlc={res.wall:.1f}s states={res.distinct} decode={t2 - t1:.1f}s replay={t3 - t2:.1f}s", flush=True)
     bad = report(ctx, uni, coefval, results, stats, pid)
     forms = {(repr(r["prog"]), repr(r["ints"])) for r in uniq}
     ctx.count("forms", len(forms))
+    w = None
     for r in uniq:
         if r["valid"]:
             ctx.distinct(uni.name + repr(r["prog"]) + repr(r["ints"]) + r["fop"])
+            if w is None and len(r["prog"]) >= 2 and r["arity"] == 2 and len(ctx.cov["samples"]) < 5 and not any(x["universe"] == uni.name for x in ctx.cov["samples"]):
+                w = World(uni, coefval)
+                ctx.sample({"universe": uni.name, "form": w.text(r), "operator": r["fop"], "refused": r["rej"], "input_table_env1": r["F"][0][0], "output_tables_env1": [o[0][0] for o in r["out"]] or r["blocks"]})
     ops = {}
     for r in uniq:
         ops[r["fop"]] = ops.get(r["fop"], 0) + 1
-    ctx.cov.setdefault("universes", []).append({"universe": uni.name, "forms": len(forms), "behaviours": len(uniq), "valid": sum(1 for r in uniq if r["valid"]), "refused_by_model": sum(1 for r in uniq if any(r["rej"])), "per_operator": ops, "tlc_states": res.distinct})
-    return uniq, bad, coefval
+    ctx.cov.setdefault("universes", []).append({"universe": uni.name, "mode": res.mode, "forms": len(forms), "behaviours": len(uniq), "in_class": sum(1 for r in uniq if r["valid"]), "refused_by_model": sum(1 for r in uniq if any(r["rej"])), "per_operator": ops, "tlc_states": res.distinct})
+    print(f"  [{uni.name}] tlc={res.wall:.1f}s states={res.distinct} forms={len(forms)} behaviours={len(uniq)} decode={t2 - t1:.1f}s replay={t3 - t2:.1f}s problems={len(bad)}", flush=True)
+    return uniq, bad
+
+
+def run_universes(ctx, mod, unis, pid=PID):
+    """TLC runs two at a time (2 workers each), replay as they finish"""
+    from concurrent.futures import ThreadPoolExecutor
+
+    bad_all = []
+    if sum(1 for u in unis) > 2:
+        get_pool()
+    with ThreadPoolExecutor(2) as ex:
+        futs = [(u, ex.submit(run_tlc, u, ctx.seed, False, PROPERTY_INVS, True, 1500, 2)) for u in unis]
+        for u, fut in futs:
+            coefval, res = fut.result()
+            uniq, bad = process_universe(ctx, mod, u, coefval, res, pid=pid)
+            bad_all += [(u.name, b) for b in bad]
+    if all(not u.simulate for u in unis):
+        ctx.cov["exhaustive"] = True
+    if bad_all:
+        lines = [f"[{n}] {b.kind}: {b.what}" for n, b in bad_all[:12]]
+        raise MachineryError(f"{len(bad_all)} disagreements between the as-coded model / evaluator and the real code (not verdicts about the property):\n" + "\n".join(lines))
+
+
+def as_coded_counterexample(ctx, uni, invariant, pid=PID):
+    """The model with the AS-CODED constant must violate `invariant`: TLC exhibits the defect on the
+    model (the verdict about the real code comes from the replay, not from this run)."""
+    coefval, res = run_tlc(uni, ctx.seed, ascoded=True, invariants=(invariant,), dump=False, workers=2)
+    ctx.add_tlc(res)
+    if res.outcome != "invariant" or res.violated != invariant:
+        raise tlc_failure(uni, res)
+    st = tlc.parse_state(res.trace[-1][1]) if res.trace else {}
+    w = World(uni, coefval)
+    prog = [dict(op=n["op"], args=n["args"], mi=n["mi"]) for n in st.get("store", [])[uni.ninit:]]
+    text = w.text({"prog": prog, "ints": st.get("form", [])}) if prog else "?"
+    ctx.cov.setdefault("as_coded_model_counterexamples", []).append({"universe": uni.name, "invariant": invariant, "operator": st.get("res"), "form": text})
+    print(f"  as-coded model violates {invariant} on {st.get('res')}({text}) [{uni.name}]", flush=True)
 
 
 def run(ctx, args):
     ctx.rule = (
         "TLC enumerates every integrand term of each bounded universe of spec/Parts.tla (terms built by <= MaxNodes constructor "
-        "calls over test/trial functions, coefficients and literals; one or two integrals), applies each form operator and "
-        "checks as-coded part extraction against the tensor meaning; every (form, operator) behaviour is rebuilt with real ufl "
-        "objects, the real operator applied and input and outputs assembled at every unit-vector point in 2 coefficient "
-        "environments; a case is one (form, operator); non-trivial = the form is in the property's class (affine in the trial "
-        "function: every monomial of degree (1,1), (1,0) or (0,0))"
+        "calls over test/trial functions, coefficients and literals; one or two integrals; thorough tier additionally programs of "
+        "up to 6 constructor calls drawn with the run's seed and validated by TLC), applies each form operator and checks as-coded "
+        "part extraction against the tensor meaning; every (form, operator) behaviour is rebuilt with real ufl objects, the real "
+        "operator applied and input and outputs assembled at every unit-vector point in 2 coefficient environments; a case is one "
+        "(form, operator); non-trivial = the form is in the property's class (affine in the trial function: every monomial of "
+        "degree (1,1), (1,0) or (0,0)); distinct = distinct (universe, program, integrals, operator)"
     )
     ctx.assume("assembly at a point: Arguments are real valued terminals (doc: 'Argument is real-valued'); the integrand evaluated at unit vectors of the concatenated sub-function values, per (integral type, subdomain id); vf/sem.py reads real expressions and is compared with TLC's table of every input form")
     ctx.assume("forms of the property's class: every monomial has degree (1,1), (1,0) or (0,0) in (test, trial); adjoint and energy_norm are applied to purely bilinear forms (and to forms with fewer than two arguments, where ufl's documented refusal is required), action to forms of the class")
@@ -1101,15 +1326,10 @@ def run(ctx, args):
         return selftest(ctx)
     only = os.environ.get("VERIF_UNIVERSES")
     unis = [u for u in universes(ctx.tier) if not only or u.name in only.split(",")]
-    bad_all = []
-    for uni in unis:
-        t0 = time.time()
-        uniq, bad, _ = run_universe(ctx, __name__, uni)
-        bad_all += [(uni.name, b) for b in bad]
-        print(f"  [{uni.name}] behaviours={len(uniq)} problems={len(bad)} {time.time() - t0:.1f}s", flush=True)
-    if bad_all:
-        lines = [f"[{n}] {b.kind}: {b.what}" for n, b in bad_all[:12]]
-        raise MachineryError(f"{len(bad_all)} disagreements between the as-coded model / evaluator and the real code (not verdicts about the property):\n" + "\n".join(lines))
+    if not only:
+        f = ("f", ())
+        as_coded_counterexample(ctx, Uni("mspace-ascoded", "space", [(), ()], [(), ()], [f], {"mul"}, 1, ("adjoint",), exclude=("two", "w_u0", "w_u1")), "AdjointTransposes")
+    run_universes(ctx, __name__, unis)
 
 
 def selftest(ctx):
